@@ -32,6 +32,8 @@ type World struct {
 	ByPath  map[string]*packages.Package
 	Overlay map[string][]byte
 
+	TypesRenamed map[string]string // "pkg/engine.opGate" -> the name the type has in the tree (analysed under the recorded name)
+
 	prog    *ssa.Program
 	ssaPkgs []*ssa.Package
 	cg      *callgraph.Graph
@@ -83,6 +85,31 @@ func goEnv() []string {
 
 // Load type-checks every package of the module (and, for SSA, its dependencies).
 func Load(repo, tier, tags string, overlay map[string][]byte, extraEnv ...string) (*World, error) {
+	w, err := loadOnce(repo, tier, tags, overlay, extraEnv...)
+	if err != nil {
+		return nil, err
+	}
+	if ren := w.typeRenames(); len(ren) > 0 {
+		if ov := w.typeRenameOverlay(ren); len(ov) > 0 {
+			for k, v := range overlay {
+				if _, ok := ov[k]; !ok {
+					ov[k] = v
+				}
+			}
+			if w2, err := loadOnce(repo, tier, tags, ov, extraEnv...); err == nil && len(w2.typeRenames()) == 0 {
+				w2.TypesRenamed = map[string]string{}
+				for tn, old := range ren {
+					w2.TypesRenamed[strings.TrimPrefix(tn.Pkg().Path(), modPath+"/")+"."+old] = tn.Name()
+				}
+				return w2, nil
+			}
+			curWorld = w
+		}
+	}
+	return w, nil
+}
+
+func loadOnce(repo, tier, tags string, overlay map[string][]byte, extraEnv ...string) (*World, error) {
 	w := &World{Repo: repo, Tier: tier, Tags: tags, Fset: token.NewFileSet(), ByPath: map[string]*packages.Package{}, Overlay: overlay}
 	cfg := &packages.Config{
 		Mode:    packages.LoadAllSyntax,
